@@ -48,3 +48,54 @@ ENTRY int verif_pbf_nodes_roundtrip(const long* fields, unsigned n, int dense, u
         return d.overflow ? 9 : 0;
     } catch (const osmium::pbf_error&) { return 1; } catch (const protozero::exception&) { return 2; } catch (const std::exception&) { return 3; }
 }
+
+// ---------------------------------------------------------------- OPL: one object through OPLOutputBlock and back through opl_parse_line
+#include <osmium/io/detail/opl_output_format.hpp>
+#include <osmium/io/detail/opl_parser_functions.hpp>
+
+// kind 0 node {id, version, timestamp, changeset, uid, visible, x, y}; 1 way {id, version, ref0, ref1}; 2 relation {id, version, mref0, mref1};
+// 3 changeset {id, created, closed, uid, num_changes, x0, y0, x1}.  md: metadata bits (version 1, timestamp 2, changeset 4, uid 8, user 16).
+// out1 = dump of the object as built, out2 = dump of what the parser made of the written line.  rc 0 ok, 1 opl_error, 2 other, 9 overflow
+ENTRY int verif_opl_roundtrip(int kind, const long* f, unsigned md, unsigned char* out1, unsigned* len1, unsigned char* out2, unsigned* len2, unsigned cap, char* text, unsigned textcap) {
+    try {
+        memory::Buffer in{1024};
+        switch (kind) {
+            case 0: {
+                { builder::NodeBuilder b{in};
+                  b.set_id(f[0]).set_version(static_cast<object_version_type>(f[1])).set_timestamp(Timestamp{static_cast<uint32_t>(f[2])}).set_changeset(static_cast<changeset_id_type>(f[3]))
+                   .set_uid(static_cast<user_id_type>(f[4])).set_visible(f[5] != 0).set_location(Location{static_cast<int32_t>(f[6]), static_cast<int32_t>(f[7])});
+                  b.set_user("usr");
+                  { builder::TagListBuilder tl{b}; tl.add_tag("k", "v w"); tl.add_tag("name", "x=y"); } }
+                break; }
+            case 1: {
+                { builder::WayBuilder b{in}; b.set_id(f[0]).set_version(static_cast<object_version_type>(f[1])).set_timestamp(Timestamp{uint32_t(1000000000)}).set_changeset(7).set_uid(8); b.set_user("u");
+                  { builder::WayNodeListBuilder wn{b}; wn.add_node_ref(f[2]); wn.add_node_ref(f[3]); } }
+                break; }
+            case 2: {
+                { builder::RelationBuilder b{in}; b.set_id(f[0]).set_version(static_cast<object_version_type>(f[1])).set_timestamp(Timestamp{uint32_t(1000000000)}).set_changeset(7).set_uid(8); b.set_user("u");
+                  { builder::RelationMemberListBuilder ml{b}; ml.add_member(item_type::node, f[2], "role a"); ml.add_member(item_type::relation, f[3], ""); } }
+                break; }
+            default: {
+                { builder::ChangesetBuilder b{in}; b.set_id(static_cast<changeset_id_type>(f[0])).set_created_at(Timestamp{static_cast<uint32_t>(f[1])}).set_closed_at(Timestamp{static_cast<uint32_t>(f[2])})
+                   .set_uid(static_cast<user_id_type>(f[3])).set_num_changes(static_cast<num_changes_type>(f[4]));
+                  b.set_bounds(Box{Location{static_cast<int32_t>(f[5]), static_cast<int32_t>(f[6])}, Location{static_cast<int32_t>(f[7]), static_cast<int32_t>(f[6])}});
+                  b.set_user("usr"); }
+                break; }
+        }
+        in.commit();
+        { Dump d{out1, cap}; d.buffer(in); *len1 = d.len; if (d.overflow) return 9; }
+        opl_output_options options;
+        options.add_metadata = osmium::metadata_options{};
+        options.add_metadata.set_version(md & 1U); options.add_metadata.set_timestamp(md & 2U); options.add_metadata.set_changeset(md & 4U);
+        options.add_metadata.set_uid(md & 8U); options.add_metadata.set_user(md & 16U);
+        std::string line = OPLOutputBlock{std::move(in), options}();
+        if (line.empty() || line.back() != '\n') return 4;
+        line.pop_back();
+        if (line.size() + 1 > textcap) return 9;
+        std::memcpy(text, line.c_str(), line.size() + 1);
+        memory::Buffer back{1024};
+        opl_parse_line(0, line.c_str(), back);
+        Dump d{out2, cap}; d.buffer(back); *len2 = d.len;
+        return d.overflow ? 9 : 0;
+    } catch (const osmium::opl_error&) { return 1; } catch (const std::exception&) { return 2; }
+}
